@@ -160,6 +160,10 @@ theorem baseInv_step (v : Variant) {s t : St} {l : Lbl} (h : BaseInv s) (hs : st
     split at hs <;> simp at hs
     subst hs
     constructor <;> simp_all [RunPc.pend, RunPc.held, RunPc.readsR, RunPc.started, RunPc.isReady, RunPc.initVal, RunPc.hasSvid]
+  | cancelRun =>
+    simp only [step, Option.some.injEq] at hs
+    subst hs
+    exact ⟨h1, h2, h3, h4, h5, h6, h7⟩
   | renew =>
     simp only [step] at hs
     split at hs <;> simp at hs
@@ -284,6 +288,10 @@ theorem fixedInv_step {s t : St} {l : Lbl} (hb : BaseInv s) (h : FixedInv s)
   | stop =>
     simp only [step] at hs
     split at hs <;> simp at hs
+    subst hs
+    exact ⟨hpre, hres⟩
+  | cancelRun =>
+    simp only [step, Option.some.injEq] at hs
     subst hs
     exact ⟨hpre, hres⟩
   | renew =>
@@ -509,6 +517,7 @@ theorem run_ne_idle_step {v : Variant} {s t : St} {l : Lbl} (hs : step v s l = s
   | runLoser => simp only [step] at hs; split at hs <;> simp at hs; subst hs; exact h
   | ctxDone i => simp only [step] at hs; split at hs <;> simp at hs; subst hs; exact h
   | stop => simp only [step] at hs; split at hs <;> simp at hs; subst hs; simp
+  | cancelRun => simp only [step, Option.some.injEq] at hs; subst hs; exact h
   | renew => simp only [step] at hs; split at hs <;> simp at hs; subst hs; simp
   | reply ok =>
     simp only [step, replyStep] at hs
@@ -736,6 +745,9 @@ theorem goodInv_step {v : Variant} {s t : St} {l : Lbl} (h : GoodInv s) (hs : st
     constructor
     · simp only [RunPc.carrying]; rw [hr] at hcarry; simpa [RunPc.carrying] using hcarry
     · exact hres
+  | cancelRun =>
+    simp only [step, Option.some.injEq] at hs
+    subst hs; exact ⟨hcarry, hres⟩
   | renew =>
     simp only [step] at hs; split at hs <;> simp at hs
     subst hs
@@ -1010,6 +1022,10 @@ theorem stuck_step {s t : St} {l : Lbl} (hb : BaseInv s) (h : Stuck s) (hs : ste
     have hi0 : i ≠ 0 := by intro h0; subst h0; rw [hget] at hi; cases hi
     exact ⟨hrun, by simp [List.getElem?_set_ne hi0, hget], hnr⟩
   | stop => simp [step, hrun] at hs
+  | cancelRun =>
+    simp only [step, Option.some.injEq] at hs
+    subst hs
+    exact ⟨hrun, hget, hnr⟩
   | renew => simp [step, hrun] at hs
   | reply ok => simp [step, replyStep, hrun] at hs
   | run =>
